@@ -107,11 +107,14 @@ def scanner(ret_kind: str | None, stop: str, extra_ens=(), loops=1, extra_inv=()
     if ret_kind is not None:
         c["ret"] = "k"
         c["ensures"].append(ret_kind)
-    c["loops"] = [{"invariant": list(_INV) + list(extra_inv), "ensures": list(loop_ens), "decreases": _DEC} for _ in range(loops)]
+    c["loops"] = [{"invariant": list(_INV) + list(extra_inv), "ensures": list(loop_ens), "decreases": _DEC, "form": loop_form} for _ in range(loops)]
     return c
 
 
 NOT_EOF = "k != Kind::Eof"
+
+# functions of the extracted unit that are verified for safety only and need no contract of their own
+NO_CONTRACT_NEEDED = ["in_path", "transition"]
 
 CONTRACTS = {
     # the lexer starts at byte 0 of exactly the text it was given (nothing is skipped up front)
